@@ -17,6 +17,7 @@ import ChythonModel.Proofs.C03StringsB
 import ChythonModel.Proofs.C03Lenient
 import ChythonModel.Proofs.C03LenientIff
 import ChythonModel.Proofs.C03Words
+import ChythonModel.Proofs.C03HydEnd
 /-!
 # C03 — SMILES reader builds exactly the molecule the text denotes, rejects the rest
 
@@ -625,6 +626,54 @@ theorem hydrogens_total_on_every_result (o : HOpts) (s : Str) (res : Result) (h 
 
 /-- `[CH3]>>C`: a reaction with two built molecules -/
 example : ∃ res, smiles [91, 67, 72, 51, 93, 62, 62, 67] = .ok res ∧ (builtOf res).length = 2 := ⟨_, rfl, rfl⟩
+
+open ChythonModel.Model.Valence ChythonModel.Spec in
+/-- **Hydrogens of an accepted string, on its graph.** Let `smiles(s)` return the molecule record `r` (atoms in writing
+    order, bonds `(i, j, order)` over atom positions — for sentences of the language the denoted graph, by
+    `smiles_accepted_is_sentence`) and the built molecule `m`. For every atom position `i` whose atom is written
+    **without brackets** (`hyd = none`), is an element of the organic subset, is not named in a CXSMILES radical block, has
+    no aromatic bond, and whose bond orders in `r.bonds` sum to at most the lowest normal valence `v0`: the hydrogen
+    loop leaves exactly `v0 − Σ` hydrogens (the OpenSMILES count `organicH`) and no radical mark on it. -/
+theorem organic_hydrogens_of_string (s : Str) (r : MolRec) (m : MolOut) (l : List (Nat × Option Nat × Bool))
+    (h : smiles s = .ok (.mol r m)) (hl : molHydrogens m = .ok l)
+    (i : Nat) (a : AtomTok) (hi : r.atoms[i]? = some a) (z v0 : Nat) (hz : atomCheck a = .ok z)
+    (horg : z ∈ OrganicValence.organicSubset) (hunb : a.hyd = none) (hq : a.charge = 0) (hrad : a.radical = false)
+    (harom : aromAt r.bonds i = 0) (hlow : OrganicValence.lowest z = some v0) (hle : valSum r.bonds i ≤ v0) :
+    l[i]? = some ((r.mapping[i]?).getD 0, some (v0 - valSum r.bonds i), false) ∧
+      organicH z (valSum r.bonds i) = some (v0 - valSum r.bonds i) := by
+  obtain ⟨hb, hnd, hlen⟩ := smiles_mol_parts s r m h
+  exact ⟨organic_hydrogens_on_graph r m l hb hl hnd hlen i a hi z v0 hz horg hunb hq hrad harom hlow hle,
+    organicH_low z horg v0 hlow _ hle⟩
+
+open ChythonModel.Model.Valence in
+/-- … and for every **bracket atom** (written count `hw`) without aromatic bonds: it carries exactly the written count
+    **iff** the valence model admits `hw` hydrogens on the atom with the bonds of the graph, as written or (when not a
+    CXSMILES radical) as a radical; for *every* atom the entry is `assignH` of (Z, charge, radical, bonds of the graph) -/
+theorem bracket_hydrogens_of_string (s : Str) (r : MolRec) (m : MolOut) (l : List (Nat × Option Nat × Bool))
+    (h : smiles s = .ok (.mol r m)) (hl : molHydrogens m = .ok l)
+    (i : Nat) (a : AtomTok) (hi : r.atoms[i]? = some a) (z : Nat) (hz : atomCheck a = .ok z)
+    (hw : Nat) (hb : a.hyd = some hw) (harom : aromAt r.bonds i = 0) (t : Rules) (ht : tableOf z = some t) :
+    ∃ hh rad, l[i]? = some ((r.mapping[i]?).getD 0, hh, rad) ∧
+      (hh = some (bracketH hw) ↔
+        (checkWith t ⟨z, a.charge, a.radical, bondsAt r i⟩ hw = true ∨
+          (a.radical = false ∧ checkWith t ⟨z, a.charge, true, bondsAt r i⟩ hw = true))) := by
+  obtain ⟨hbm, hnd, hlen⟩ := smiles_mol_parts s r m h
+  exact bracket_hydrogens_on_graph r m l hbm hl hnd hlen i a hi z hz hw hb harom t ht
+
+open ChythonModel.Model.Valence in
+theorem hydrogens_of_string (s : Str) (r : MolRec) (m : MolOut) (l : List (Nat × Option Nat × Bool))
+    (h : smiles s = .ok (.mol r m)) (hl : molHydrogens m = .ok l)
+    (i : Nat) (a : AtomTok) (hi : r.atoms[i]? = some a) (z : Nat) (hz : atomCheck a = .ok z) :
+    ∃ res, assignH ⟨z, a.charge, a.radical, bondsAt r i⟩ a.hyd = some res ∧
+      l[i]? = some ((r.mapping[i]?).getD 0, res.1, res.2) := by
+  obtain ⟨hbm, hnd, hlen⟩ := smiles_mol_parts s r m h
+  exact hydrogens_on_graph r m l hbm hl hnd hlen i a hi z hz
+
+/-- instance: `CC(=O)O` — the model's `smiles` and hydrogen loop give 3, 0, 0, 1 -/
+example : (match smiles [67, 67, 40, 61, 79, 41, 79] with
+    | .ok (.mol _ m) => (molHydrogens m).toOption
+    | _ => none) = some [(1, some 3, false), (2, some 0, false), (3, some 0, false), (4, some 1, false)] := by
+  decide +kernel
 
 /-- **Tie to the pipeline**: on every molecule the structural part of `create_molecule` builds, the hydrogen loop
     raises nothing and yields one entry per atom in atom order; entry `i` is `assignH` of the context
